@@ -19,6 +19,8 @@ thread_local! {
     pub static FUTURE_DATED: std::cell::Cell<bool> = const { std::cell::Cell::new(false) };
     /// make the operation's trigger event fire (C03 varies it)
     pub static FORCE_MAINTENANCE: std::cell::Cell<bool> = const { std::cell::Cell::new(false) };
+    /// thorough tier: the matrices also cover stacks with three read-only levels and values of 0 B and 3 x 8 KiB
+    pub static DEEP: std::cell::Cell<bool> = const { std::cell::Cell::new(false) };
     /// an fsx controller to install for the duration of the operation
     pub static CONTROLLER: std::cell::RefCell<Option<Arc<dyn shim::Controller>>> = const { std::cell::RefCell::new(None) };
 }
@@ -542,6 +544,13 @@ pub fn shapes() -> Vec<(Option<Front>, Vec<Front>)> {
             v.push((w, r));
         }
     }
+    if DEEP.with(|d| d.get()) {
+        for w in [None, Some(p), Some(s)] {
+            for r in [vec![p, p, p], vec![p, s, p], vec![s, p, s]] {
+                v.push((w, r));
+            }
+        }
+    }
     // explicitly sharded read-only levels with a degenerate shard count (0 and 1 mean 2 shards, as for writers)
     for w in [None, Some(p)] {
         for r in [vec![Front::Sharded(1)], vec![p, Front::Sharded(1)], vec![Front::Sharded(0), p], vec![Front::Sharded(1), Front::Sharded(0)]] {
@@ -549,6 +558,19 @@ pub fn shapes() -> Vec<(Option<Front>, Vec<Front>)> {
         }
     }
     v
+}
+
+/// Value sizes written by set/put/populate in the matrices of the current tier.
+pub fn matrix_sizes() -> Vec<Size> {
+    if DEEP.with(|d| d.get()) {
+        vec![Size::One, Size::Empty, Size::Chunks]
+    } else {
+        vec![Size::One]
+    }
+}
+
+pub fn set_tier(tier: crate::report::Tier) {
+    DEEP.with(|d| d.set(tier == crate::report::Tier::Thorough));
 }
 
 pub fn content_products(levels: &[Front]) -> Vec<Vec<Content>> {
